@@ -18,7 +18,7 @@ class Array(ElementBase):
 
         shape = np.shape(self.points)
 
-        if shape[1] != 3:
+        if len(shape) != 2 or shape[1] != 3:
             raise ArrayCreationError("Provide a list of points of 3D space!")
 
         if len(self.points) <= 1:
